@@ -140,6 +140,36 @@ def m_ksock(pre, ev, post):
                                    sorted((a, p, s.hex()) for a, p, s in m2)), w2.history)
 
 
+def m_sendfail(pre, ev, post):
+    """fault enumeration: re-execute the transition once per datagram an endpoint sends in it, with that sendto() failing
+    (network unreachable: the datagram never leaves the host, the caller sees OSError).  The daemon survives it, and once
+    the timers have done their work (the request is retransmitted, or the peer retransmits and gets the stored response)
+    and everything has settled, kernel and tracking agree at both ends."""
+    for name in sorted(post.endpoints):
+        n_sent = sum(1 for d in post.step_emitted if d.sender == name)
+        for j in range(n_sent):
+            w = pre.fork()
+            w.step(('sendfail', name, j, 'ENETUNREACH'))
+            P.apply_event(w, ev)
+            C.COVER['sendfail-reexecutions'] += 1
+            lab = 'send#%d:%s' % (j, P.ev_label(pre, ev))
+            e2 = w.endpoints[name]
+            if not e2.alive:
+                yield ('M-exc', 'sendfail-escape:%s:%s' % (e2.dead_reason[0], lab),
+                       'a failing sendto() at %s let %s escape main_loop of %s' % (lab, e2.dead_reason[0], name))
+                continue
+            w.step(('tick', 1.5))
+            w2, status = P.drain(w)
+            for n2, e3 in w2.endpoints.items():
+                if e3.alive:
+                    o2, m2 = P.sad_diff(e3)
+                    if o2 or m2:
+                        yield ('M-sad', 'sendfail-drain:orphan=%d:missing=%d:%s' % (len(o2), len(m2), lab),
+                               '%s after a failing sendto() of %s at %s, the timers and drain: untracked=%s absent=%s' % (
+                                   n2, name, lab, sorted((a, p, s.hex()) for a, p, s in o2),
+                                   sorted((a, p, s.hex()) for a, p, s in m2)), w2.history)
+
+
 def _sad_check(w, name, sig, what):
     e = w.endpoints[name]
     if not e.alive:
@@ -261,14 +291,14 @@ def m_sad_counted(pre, ev, post):
     return P.m_sad(pre, ev, post)
 
 
-MONITORS = [m_sad_counted, m_clauses, m_kfault, m_ksock, C.m_del]
+MONITORS = [m_sad_counted, m_clauses, m_kfault, m_ksock, m_sendfail, C.m_del]
 STATE_MONITORS = [sm_drain_sad]
 FOREIGN_SCENARIOS = [dict(config='match', kinds=('rekey_ike', 'soft', 'hard'), budget=dict(trig=1, fault=0)),
                      dict(config='match', kinds=('rekey_ike', 'acquire'), budget=dict(trigA=1, trigB=1, fault=0))]
 
 
 def run(i):
-    mons = [m for m in MONITORS if not (SCEN[i].get('light') and m is m_ksock)]
+    mons = [m for m in MONITORS if not (SCEN[i].get('light') and m in (m_ksock, m_sendfail))]
     ex = C.explore(SCEN[i], mons, STATE_MONITORS, quick=ck.quick, max_states=None if ck.quick else 400000, jobs=0 if ck.quick else ck.jobs)
     return ex.summary()
 
